@@ -78,22 +78,27 @@ RefRejected(k) ==
           \/ DupSnap(lst, RefSnapAt(k, name))
   \/ \E i \in DOMAIN Stmt(k).members : BadStack(Stmt(k).members[i].decos)
 
-Settled == pc \in {"next", "done"}
+Settled == pc \in {"next", "done", "posthoc"}
 Created == {k \in DOMAIN cl : cl[k].ok /\ (k < step \/ Settled)}
 
 (* ---- C04 / C18: what introspection (and hence the wrappers) see equals the reference ---- *)
-EffPreEqRef ==
+NoPostHocYet == pc # "posthoc" /\ ~(pc = "done" /\ hist.posthoc # <<>>)
+EffPreEqRef == NoPostHocYet =>
   \A k \in Created : \A name \in Names :
      LET v == MemberView(cl, fo, lst, k, name) r == RefPre(k, name) IN
        (r.kind = "absent" => v.kind = "none") /\ (r.kind # "absent" => v.pre = r.groups)
-EffPostEqRef == \A k \in Created : \A name \in Names : MemberView(cl, fo, lst, k, name).post = RefPost(k, name)
-EffSnapEqRef == \A k \in Created : \A name \in Names : MemberView(cl, fo, lst, k, name).snap = RefSnap(k, name)
+EffPostEqRef == NoPostHocYet => \A k \in Created : \A name \in Names : MemberView(cl, fo, lst, k, name).post = RefPost(k, name)
+EffSnapEqRef == NoPostHocYet => \A k \in Created : \A name \in Names : MemberView(cl, fo, lst, k, name).snap = RefSnap(k, name)
 EffInvEqRef  == \A k \in Created : \A sel \in {"inv", "oncall", "onset"} : EffInvOf(cl, lst, k, sel) = RefInv(k, sel)
 RejectedExactly == \A k \in DOMAIN cl : (k < step \/ Settled) => (cl[k].ok <=> ~RefRejected(k))
 
 (* ---- C17: a definition step never changes what an earlier class shows ---- *)
+\* (a post-hoc decoration of a member of class K may only change K and the classes that inherit the member from K)
+InMro(k, j) == \E i \in DOMAIN cl[j].mro : cl[j].mro[i] = k
 NonInterference ==
-  [][\A k \in DOMAIN cl : (k < step /\ cl[k].ok) => ClassView(cl', fo', lst', k) = ClassView(cl, fo, lst, k)]_dvars
+  [][IF pc = "posthoc" /\ di <= Len(hist.posthoc)
+       THEN \A j \in DOMAIN cl : (cl[j].ok /\ ~InMro(hist.posthoc[di].k, j)) => ClassView(cl', fo', lst', j) = ClassView(cl, fo, lst, j)
+       ELSE \A k \in DOMAIN cl : (k < step /\ cl[k].ok) => ClassView(cl', fo', lst', k) = ClassView(cl, fo, lst, k)]_dvars
 \* no list object can be reached for appending from two different classes
 NoSharedInvList ==
   Settled => \A k1, k2 \in Created : \A sel \in {"inv", "oncall", "onset"} :
